@@ -59,3 +59,8 @@ func SimHealthCheckTarget(hc *HealthCheck) *Target {
 func SimLoadBalancerTargets(lb *LoadBalancer) []*Target {
 	return lb.all
 }
+
+// SimHealthCheckStopped reports whether a health check has been closed.
+func SimHealthCheckStopped(hc *HealthCheck) bool {
+	return hc.ctx.Err() != nil
+}
